@@ -14,6 +14,7 @@ import (
 	"testing"
 
 	"github.com/deadsy/sdfx/render"
+	"github.com/deadsy/sdfx/render/dc"
 	"github.com/deadsy/sdfx/sdf"
 	v2 "github.com/deadsy/sdfx/vec/v2"
 	v3 "github.com/deadsy/sdfx/vec/v3"
@@ -35,10 +36,43 @@ func render3(name string, cells int) render.Render3 {
 }
 
 func render2(name string, cells int) render.Render2 {
-	if name == "msq" {
+	switch name {
+	case "msq":
 		return render.NewMarchingSquaresQuadtree(cells)
+	case "dc2":
+		return render.NewDualContouring2D(cells)
 	}
 	return render.NewMarchingSquaresUniform(cells)
+}
+
+// the dual-contouring renderers of render/dc have their own channel interface
+func dcTriangles(s sdf.SDF3, name string, cells int) []*sdf.Triangle3 {
+	var out []*sdf.Triangle3
+	var wg sync.WaitGroup
+	wg.Add(1)
+	if name == "dcv1" {
+		ch := make(chan *sdf.Triangle3)
+		go func() {
+			defer wg.Done()
+			for t := range ch {
+				out = append(out, t)
+			}
+		}()
+		dc.NewDualContouringV1(-1, 0, true).Render(s, cells, ch)
+		close(ch)
+	} else {
+		ch := make(chan []*sdf.Triangle3)
+		go func() {
+			defer wg.Done()
+			for ts := range ch {
+				out = append(out, ts...)
+			}
+		}()
+		dc.NewDualContouringDefault(cells).Render(s, ch)
+		close(ch)
+	}
+	wg.Wait()
+	return out
 }
 
 func collect2(s sdf.SDF2, r render.Render2) []*sdf.Line2 {
@@ -70,7 +104,12 @@ func fileHash(t *rapid.T, path string) string {
 func out3(t *rapid.T, s sdf.SDF3, rname string, cells int, sink, dir string) string {
 	switch sink {
 	case "triangles":
-		ts := render.ToTriangles(s, render3(rname, cells))
+		var ts []*sdf.Triangle3
+		if strings.HasPrefix(rname, "dcv") {
+			ts = dcTriangles(s, rname, cells)
+		} else {
+			ts = render.ToTriangles(s, render3(rname, cells))
+		}
 		h := sha256.New()
 		for _, tr := range ts {
 			for _, v := range tr {
@@ -174,9 +213,14 @@ func TestDeterministicAcrossConfigurations(t *testing.T) {
 				rec.Case(false, "", "discarded")
 				return
 			}
-			rname = rapid.SampledFrom([]string{"mcu", "mcu", "mco"}).Draw(t, "renderer")
+			rname = rapid.SampledFrom([]string{"mcu", "mcu", "mcu", "mco", "mco", "dcv1", "dcv2"}).Draw(t, "renderer")
 			sink = rapid.SampledFrom([]string{"triangles", "stl", "3mf"}).Draw(t, "sink")
 			cells = rapid.IntRange(8, ev.Pick(24, 40)).Draw(t, "cells")
+			if strings.HasPrefix(rname, "dcv") {
+				// render/dc has no file front end of its own: the triangle sequence is the output
+				sink = "triangles"
+				cells = rapid.IntRange(6, 16).Draw(t, "dc-cells")
+			}
 			run = func(mode int) string {
 				return out3(t, &lat.Perturb3{S: b.SDF3(), Mode: mode}, rname, cells, sink, dir)
 			}
@@ -193,7 +237,7 @@ func TestDeterministicAcrossConfigurations(t *testing.T) {
 				rec.Case(false, "", "discarded")
 				return
 			}
-			rname = rapid.SampledFrom([]string{"msu", "msq"}).Draw(t, "renderer")
+			rname = rapid.SampledFrom([]string{"msu", "msq", "dc2"}).Draw(t, "renderer")
 			sink = rapid.SampledFrom([]string{"lines", "dxf", "svg"}).Draw(t, "sink")
 			cells = rapid.IntRange(8, ev.Pick(80, 200)).Draw(t, "cells")
 			run = func(mode int) string { return out2(t, b.SDF2(), rname, cells, sink, dir) }
@@ -259,14 +303,20 @@ func TestFreshProcesses(t *testing.T) {
 		S := rapid.SampledFrom([]float64{1, 10}).Draw(t, "scale")
 		c := map[string]any{}
 		var n *shape.Node
+		// a third of the programs have only leaves whose construction draws from the library's random source
+		randLeaf := rapid.IntRange(0, 2).Draw(t, "random-source-leaves") == 0
 		if dim == 3 {
-			n = shape.Gen3(t, shape.Opts{S: S, Depth: rapid.IntRange(1, 2).Draw(t, "depth"), Grammar: shape.Full, Special: true, Bezier: true, NoPoly: true, SolidUnion2: true, NoText: rapid.IntRange(0, 2).Draw(t, "text") != 0})
-			c["renderer"] = rapid.SampledFrom([]string{"mcu", "mco"}).Draw(t, "renderer")
+			n = shape.Gen3(t, shape.Opts{S: S, Depth: rapid.IntRange(1, 2).Draw(t, "depth"), Grammar: shape.Full, Special: true, Bezier: true, NoPoly: true, SolidUnion2: true, RandLeaf: randLeaf, NoText: rapid.IntRange(0, 2).Draw(t, "text") != 0})
+			c["renderer"] = rapid.SampledFrom([]string{"mcu", "mco", "mcu", "mco", "dcv1", "dcv2"}).Draw(t, "renderer")
 			c["sinks"] = []string{"triangles", "stl", "3mf"}
 			c["cells"] = rapid.IntRange(8, 20).Draw(t, "cells")
+			if strings.HasPrefix(c["renderer"].(string), "dcv") {
+				c["sinks"] = []string{"triangles"}
+				c["cells"] = rapid.IntRange(6, 14).Draw(t, "dc-cells")
+			}
 		} else {
-			n = shape.Gen2(t, shape.Opts{S: S, Depth: rapid.IntRange(0, 2).Draw(t, "depth"), Grammar: shape.Full, Special: true, Bezier: true, NoPoly: true, SolidUnion2: true, NoText: rapid.IntRange(0, 2).Draw(t, "text") != 0})
-			c["renderer"] = rapid.SampledFrom([]string{"msu", "msq"}).Draw(t, "renderer")
+			n = shape.Gen2(t, shape.Opts{S: S, Depth: rapid.IntRange(0, 2).Draw(t, "depth"), Grammar: shape.Full, Special: true, Bezier: true, NoPoly: true, SolidUnion2: true, RandLeaf: randLeaf, NoText: rapid.IntRange(0, 2).Draw(t, "text") != 0})
+			c["renderer"] = rapid.SampledFrom([]string{"msu", "msq", "dc2"}).Draw(t, "renderer")
 			c["sinks"] = []string{"lines", "dxf", "svg"}
 			c["cells"] = rapid.IntRange(8, 60).Draw(t, "cells")
 		}
